@@ -57,6 +57,15 @@ template <class T> void single (Tally& tl, const Quat<T>& q, const std::string& 
         Quat<T> c = ~q;
         if (!(c.r == q.r && c.v.x == -q.v.x && c.v.y == -q.v.y && c.v.z == -q.v.z)) R ().fail (site<T> ("Quat", "operator~=conjugate"), in, "(w,-v)", qs (c));
     }
+    // compound product with itself: q *= q must be q * q (the argument aliases the object), and q /= q == q / q
+    {
+        Quat<T> a = q, b = q, w = q * q, d = q / q;
+        a *= a;
+        b /= b;
+        tl.trans += 2;
+        if (!(ex::same (a.r, w.r) && ex::same (a.v.x, w.v.x) && ex::same (a.v.y, w.v.y) && ex::same (a.v.z, w.v.z))) R ().fail (site<T> ("Quat", "operator*=.rhs-aliases-self"), in, qs (w), qs (a));
+        if (!(ex::same (b.r, d.r) && ex::same (b.v.x, d.v.x) && ex::same (b.v.y, d.v.y) && ex::same (b.v.z, d.v.z))) R ().fail (site<T> ("Quat", "operator/=.rhs-aliases-self"), in, qs (d), qs (b));
+    }
     // matrices against the rotation of q/|q|
     LD m[3][3];
     qmat (qr, m);
